@@ -73,3 +73,8 @@ chk("C09", "PBT over method signatures (0..20 params: ABI values, transaction an
     "Generated signatures straddling the 15-argument cutoff, with transaction and reference parameters at any position, are called through groups built offline by algosdk's AtomicTransactionComposer; the handler's per-parameter logs and the single 0x151f7c75-prefixed result log must equal the reference encodings, typed transaction parameters must be enforced, and the returned contract's signatures/selectors must be the ones the program dispatches on.",
     "Trusts algosdk (ATC + abi) as the ARC-4 calling-convention reference, vf/avm, C04 static predicate.",
     "DESIGN.md section 2 C09")
+
+chk("C14", "PBT over InnerTxnBuilder.MethodCall/ExecuteMethodCall argument lists; the reference interpreter records the inner group, which is decoded the way an ARC-4 callee would and compared with the intended arguments (algosdk encodings)",
+    "Generated signatures and argument forms (ABI instances, pre-encoded bytes, reference expressions, transaction field dicts, extra_fields, app_id None) are executed; the recorded inner group must show the right selector, reference encodings in order, one-byte reference indices that resolve through the foreign arrays to the intended account/app/asset, transaction arguments as the preceding group members, and ill-typed argument lists must be refused at build time.",
+    "Trusts algosdk.abi encodings, vf/avm inner-transaction recording, C04 static predicate.",
+    "DESIGN.md section 2 C14")
